@@ -10,7 +10,7 @@ FUNCTIONS = [
          contract="requires sizes_ok(variables@), variables@.len() < u32::MAX\n    ensures r as int == slots(variables@)",
          loops=[dict(match=r"^variables$", binder="it",
                      pre="let ghost v0 = variables@;",
-                     inv="it.seq() == v0, sizes_ok(v0), v0.len() < u32::MAX, bytes_used_in_slot as int == lay(v0, it.index@).0, slots_used as int == lay(v0, it.index@).1",
+                     inv="it.seq() == v0, sizes_ok(v0), v0.len() < u32::MAX, bytes_used_in_slot as int == lay(v0, it.index@).0, $ret as int == lay(v0, it.index@).1",
                      body="proof { lemma_lay_bounds(v0, it.index@); lemma_lay_bounds(v0, it.index@ + 1); }",
                      after="proof { lemma_lay_bounds(v0, v0.len() as int); }")]),
     dict(name="struct_can_be_packed", rel=PST,
@@ -23,19 +23,19 @@ FUNCTIONS = [
     dict(name="pack_struct_variables_optimization", rel=PST,
          contract="requires all_wf(w_structs(source_unit), |n: Node| wf_struct_node(n))\n    ensures r@ == hits_all(w_structs(source_unit), |n: Node| pat_pack_struct(n), |n: Node| loc_pack_struct(n))",
          start="    proof { axiom_loc_key_model(); }",
-         after=[dict(match=r"let target_nodes", text="let ghost w = target_nodes@;")],
-         loops=[dict(match=r"^target_nodes$", binder="it",
-                     inv="it.seq() == w, w == w_structs(source_unit), all_wf(w, |n: Node| wf_struct_node(n)), optimization_locations@ == hits(w, it.index@, |n: Node| pat_pack_struct(n), |n: Node| loc_pack_struct(n))",
+         after=[dict(match="@x0", text="let ghost w = $x0@;")],
+         loops=[dict(match=r"^$x0$", binder="it",
+                     inv="it.seq() == w, w == w_structs(source_unit), all_wf(w, |n: Node| wf_struct_node(n)), $ret@ == hits(w, it.index@, |n: Node| pat_pack_struct(n), |n: Node| loc_pack_struct(n))",
                      body="proof { axiom_loc_key_model(); lemma_flt_wanted(set![Target::StructDefinition], all_nodes(Node::SourceUnit(source_unit)), it.index@); assert(wf_struct_node(w[it.index@])); }")]),
     dict(name="pack_storage_variables_optimization", rel=PSV,
          contract="requires all_wf(w_contracts(source_unit), |n: Node| wf_contract_node(n))\n    ensures r@ == hits_all(w_contracts(source_unit), |n: Node| pat_pack_storage(n), |n: Node| loc_pack_storage(n))",
          start="    proof { axiom_loc_key_model(); }",
-         after=[dict(match=r"let target_nodes", text="let ghost w = target_nodes@;"),
+         after=[dict(match="@x0", text="let ghost w = $x0@;"),
                 dict(match=r"variable_sizes\.sort\(\)", text="proof { lemma_part_sizes_ok(p0, p0.len() as int); lemma_sorted_is_asc(unordered_variable_sizes@, variable_sizes@); lemma_perm_sizes_ok(unordered_variable_sizes@, variable_sizes@); }")],
-         loops=[dict(match=r"^target_nodes$", binder="it",
-                     inv="it.seq() == w, w == w_contracts(source_unit), all_wf(w, |n: Node| wf_contract_node(n)), optimization_locations@ == hits(w, it.index@, |n: Node| pat_pack_storage(n), |n: Node| loc_pack_storage(n))",
+         loops=[dict(match=r"^$x0$", binder="it",
+                     inv="it.seq() == w, w == w_contracts(source_unit), all_wf(w, |n: Node| wf_contract_node(n)), $ret@ == hits(w, it.index@, |n: Node| pat_pack_storage(n), |n: Node| loc_pack_storage(n))",
                      body="proof { axiom_loc_key_model(); lemma_flt_wanted(set![Target::ContractDefinition], all_nodes(Node::SourceUnit(source_unit)), it.index@); assert(wf_contract_node(w[it.index@])); }"),
-                dict(match=r"contract_definition\.clone\(\)\.parts", binder="itp",
+                dict(match=r"contract_definition(\.clone\(\))?\.parts", binder="itp",
                      pre="let ghost p0 = contract_definition.parts@;",
                      inv="itp.seq() == p0, wf_parts(p0), variable_sizes@ == part_sizes(p0, itp.index@)",
                      body="proof { match p0[itp.index@] { pt::ContractPart::VariableDefinition(d) => { lemma_size_range(d.ty); } _ => {} } }")]),
